@@ -77,6 +77,7 @@ v('C17', 'fire', 'transform.py', "return Rotation.from_matrix(mat).as_euler('xyz
   "return Rotation.from_matrix(mat).as_euler('xyz')", 'degrees flag dropped')
 # ------------------------------------------------------------------ increments C15
 S = 'strapdown.py'
+v('C15 C01', 'fire', S, '    gyro = imu[GYRO_COLS].values\n    accel = imu[ACCEL_COLS].values    \n', '    gyro, accel = np.hsplit(imu.values, 2)\n', 'seeded C15 round 5: readings taken by column position')
 v('C02 C09', 'fire', S, "        return self._integrate(increment.to_frame().transpose(), 'predict').iloc[0]", "        if increment['dt'] == 0:\n            return self.get_pva().rename(increment.name)\n        return self._integrate(increment.to_frame().transpose(), 'predict').iloc[0]", 'seeded C02 round 5: zero-step fast path of predict returns the stored row')
 v('C02', 'silent', S, "        return self._integrate(increment.to_frame().transpose(), 'predict').iloc[0]", "        row = self._integrate(increment.to_frame().transpose(), 'predict')\n        return row.iloc[0]")
 v('C15 C01', 'fire', S, 'coning = np.cross(gyro[:-1], gyro[1:]) / 12', 'coning = np.cross(gyro[:-1], gyro[1:]) / 6')
@@ -214,6 +215,7 @@ v('C05 C04', 'fire', 'error_model.py', ['    @classmethod\n    def _transform_to
   ['    _OUTPUT_3D_SINGLE = np.zeros((1, 9, 9))\n\n    @classmethod\n    def _transform_to_output_3d(cls, trajectory):', '        result = cls._OUTPUT_3D_SINGLE if series else np.zeros((trajectory.shape[0], 9, 9))\n'],
   'seeded C05 round 5: single-state transform built in a shared class-level buffer')
 UT = 'util.py'
+v('C19 C18', 'fire', UT, '    elif result > 180:', '    elif result >= 180:', 'seeded C19 round 5: the scalar arm reduces a half turn to -180, the array arm to 180')
 v('C18', 'silent', UT, '    result = angle % 360', '    if np.all(np.abs(angle) < 180):\n        return angle\n    result = angle % 360', 'shortcut review: already reduced angles returned as they are')
 v('C18', 'fire', UT, '    result = angle % 360', '    if np.all(np.abs(angle) <= 180):\n        return angle\n    result = angle % 360', 'shortcut review: -180 is returned instead of 180')
 v('C14 C12', 'fire', IS, 'P[n_states, n_states] = bias_sd[axis] ** 2', 'P[n_states, n_states] = bias_sd[axis] ** 3', 'survey: initial covariance is not the squared sd')
